@@ -204,14 +204,31 @@ func ruleR36(c *Ctx) {
 					return true
 				}
 				merged := bagT{}
+				var arms []bagT
 				for _, cl := range x.Body.List {
+					cc := cl.(*ast.CaseClause)
 					arm := bagT{}
-					for _, st := range cl.(*ast.CaseClause).Body {
+					for _, st := range cc.Body {
 						walkInto(st, arm)
+					}
+					if cc.List != nil && !endsInPanic(info, cc.Body) {
+						arms = append(arms, arm)
 					}
 					for k, v := range arm {
 						if merged[k] < v {
 							merged[k] = v
+						}
+					}
+				}
+				// the arms of one dispatch treat the descent position alike: a step that one arm
+				// lacks (or takes the other way) is a difference of its own
+				for k, v := range merged {
+					if !strings.HasPrefix(k, "store depth") {
+						continue
+					}
+					for _, arm := range arms {
+						if arm[k] != v {
+							out["non-uniform across the arms of a kind dispatch: "+k]++
 						}
 					}
 				}
@@ -268,14 +285,18 @@ func ruleR36(c *Ctx) {
 						isPos = true
 					}
 					if through || isPos || (root != nil && m.isTreeRecv(root)) {
-						out["store "+storeTarget(u, l)]++
+						op := ""
+						if x.Tok != token.ASSIGN && x.Tok != token.DEFINE {
+							op = " " + x.Tok.String()
+						}
+						out["store "+storeTarget(u, l)+op]++
 					}
 				}
 			case *ast.IncDecStmt:
 				root, through := rootVar(info, x.X)
 				id, isId := ast.Unparen(x.X).(*ast.Ident)
 				if through || (isId && id.Name == "depth") || (root != nil && m.isTreeRecv(root)) {
-					out["store "+storeTarget(u, x.X)]++
+					out["store "+storeTarget(u, x.X)+" "+x.Tok.String()]++
 				}
 			}
 			return true
